@@ -1,6 +1,7 @@
 import VelaVerif.Lemmas.EmitProg
 import VelaVerif.Spec.OpCheck
 import VelaVerif.Lemmas.EmitExample
+import VelaVerif.Model.Shram
 /-!
 # C06 — the register command stream encodes exactly the operations it was given
 
@@ -288,6 +289,22 @@ theorem op_roundtrip_dma (arch : NpuOp.Arch) (d : NpuOp.DmaOp) (ws : List RegWri
       rw [regVal_regSet' _ _ _ _ s4 k5, regVal_regSet' _ _ _ _ s3 k4]; simp [Ne.symm ne45])]
     rfl
 
+
+/-! ## 3c. accumulator format the operation requires -/
+
+/-- the register encoding the comparator expects (`OpCheck.specAccFormat`) is the live `acc_format` enum -/
+theorem acc_format_encoding_matches_spec :
+    lookupName Gen.Regs.tblAccFormat "INT_32BIT" = some (OpCheck.specAccFormat 32).toNat ∧
+    lookupName Gen.Regs.tblAccFormat "INT_40BIT" = some (OpCheck.specAccFormat 40).toNat := by decide
+
+/-- The hand-written requirement of the comparator ("16-bit inputs that are rescaled need 40-bit accumulators, except
+    maximum / average pooling") and the allocator model of C15 (`Shram.accType`, tied to `_acc_type` by C15's
+    correspondence) select the same accumulator width for every block type, IFM width and scaling flag — so a change of
+    `_acc_type` is visible both as a C15 correspondence break and as an `accFormat.required` mismatch on real streams. -/
+theorem required_acc_matches_allocator_model (bt : Shram.BlockType) (ifmBits : Nat) (scaled : Bool) :
+    Shram.accBitsOf (Shram.accType bt ifmBits scaled) = OpCheck.requiredAccBitsCore (decide (bt = .pooling)) ifmBits scaled := by
+  unfold Shram.accType OpCheck.requiredAccBitsCore
+  by_cases h1 : ifmBits = 16 <;> by_cases h2 : bt = .pooling <;> cases scaled <;> simp [h1, h2, Shram.accBitsOf] <;> decide
 
 /-! ## 4. alignment: what passes the generator's checks is aligned -/
 
